@@ -4,7 +4,7 @@
 // contains comments only; it is compiled only with the "verif" build tag.
 package glyf
 
-//@ func decodeLoca(enc *Encoded) (offs []int, err error)   props: C11 C02 C01
+//@ func decodeLoca(enc *Encoded) (offs []int, err error)   props: C11 C02 C01 C16
 //@   requires enc != nil
 //@   ensures err == nil ==> len(offs) >= 2 && (enc.LocaFormat == 0 || enc.LocaFormat == 1)
 //@   ensures err == nil ==> forall i int :: 0 <= i && i < len(offs) ==> 0 <= offs[i] && offs[i] <= len(enc.GlyfData)
@@ -23,7 +23,7 @@ package glyf
 //@     invariant forall j int :: 0 <= j && j < iter - 1 ==> offs[j] <= offs[j+1]
 //@     invariant iter > 0 ==> prev == offs[iter-1]
 
-//@ func encodeLoca(offs []int) (locaData []byte, locaFormat int16)   props: C11 C01
+//@ func encodeLoca(offs []int) (locaData []byte, locaFormat int16)   props: C11 C01 C16
 //@   requires len(offs) >= 1 && len(offs) <= 65537
 //@   requires forall i int :: 0 <= i && i < len(offs) ==> 0 <= offs[i] && offs[i] <= offs[len(offs)-1] && offs[i]%2 == 0
 //@   requires offs[len(offs)-1] <= 4294967295
@@ -46,7 +46,7 @@ package glyf
 //@ spec glyphLen(g *Glyph) int = ite(g == nil, 0, padLen(rawLen(g)))
 //@ pred glyphOK(g *Glyph) = g != nil ==> (is(g.Data, SimpleGlyph) || is(g.Data, CompositeGlyph)) && (is(g.Data, CompositeGlyph) ==> forall k int :: 0 <= k && k <= len(g.Data.(CompositeGlyph).Components) ==> 0 <= compLen(g.Data.(CompositeGlyph).Components, k) && compLen(g.Data.(CompositeGlyph).Components, k) <= 1099511627776)
 
-//@ func (g *Glyph) encodeLen() (n int)   props: C11 C08 C01
+//@ func (g *Glyph) encodeLen() (n int)   props: C11 C08 C01 C16
 //@   requires glyphOK(g)
 //@   ensures n == glyphLen(g)
 //@   modifies nothing
@@ -56,7 +56,7 @@ package glyf
 //@     invariant pre(total) <= total && total <= padLen(pre(total))
 //@     decreases padLen(pre(total)) - total
 
-//@ func (g *Glyph) append(buf []byte) (res []byte)   props: C11 C08 C01
+//@ func (g *Glyph) append(buf []byte) (res []byte)   props: C11 C08 C01 C16
 //@   requires glyphOK(g) && len(buf) <= 1099511627776 && len(buf)%2 == 0
 //@   ensures len(res) == len(buf) + glyphLen(g)
 //@   ensures forall i int :: 0 <= i && i < len(buf) ==> res[i] == old(buf[i])
@@ -75,7 +75,7 @@ package glyf
 //@ spec sumLen(gg Glyphs, k int) int = ite(k <= 0, 0, sumLen(gg, k-1) + glyphLen(gg[k-1]))
 //@ spec locaOff(enc *Encoded, i int) int = ite(enc.LocaFormat == 0, 2*be16(enc.LocaData, 2*i), be32(enc.LocaData, 4*i))
 
-//@ func (gg Glyphs) Encode() (enc *Encoded)   props: C11 C01
+//@ func (gg Glyphs) Encode() (enc *Encoded)   props: C11 C01 C16
 //@   requires forall i int :: 0 <= i && i < len(gg) ==> glyphOK(gg[i])
 //@   requires len(gg) <= 65536 && forall k int :: 0 <= k && k <= len(gg) ==> 0 <= sumLen(gg, k) && sumLen(gg, k) <= 4294967295
 //@   ensures enc != nil && fresh(enc) && (enc.LocaFormat == 0 || enc.LocaFormat == 1)
